@@ -250,6 +250,10 @@ EXTRA={
    '//@ assertbefore "output = nativeValueToResp(a)" [C05] negative.exact: *count < 0 ==> len(a) == -(*count)',
    '//@ assertbefore "output = nativeValueToResp(a)" [C05] positive.bounded: *count >= 0 ==> len(a) <= *count && len(a) <= m.count',
    '//@ assertbefore "output.data = respBulkString(a[0])" [C05] single: len(a) == 1'],
+ 'randomKey': [
+   # RANDOMKEY terminates with the lock held for at most one pass over the table (expired keys stay in the table: a walk that waits for a live key would never end when there is none), and answers a live key of the table
+   '//@ loop 1 decreases l - visited',
+   '//@ loop 1 invariant [C13,C06] one.pass: 0 <= visited && visited <= l && 0 <= n && n < l && l == len(dsc.ds.data.buckets)'],
  'lmpop': ['// LMPOP serves exactly one list - the first non-empty one - and takes at most COUNT elements from it',
    '//@ ghostentry gFound = 0',
    '//@ ghostbefore "result = []any{keyName, elements}" : gFound = gFound + 1',
